@@ -297,7 +297,10 @@ def main(tier: str, selftest_cases: int = 0) -> int:
     rep = report.Report(PID, tier, "other")
     tasks = families.shuffled(tasks_for(tier), rep.seed)
     utasks = [("unconv", ch, OPS) for ch in par.chunks(UNCONV_PAIRS, 6)]
-    normal = par.run("props.c07", "sub_worker", tasks)
+    # one fresh interpreter per task in BOTH modes: the planner's outcome can depend on the
+    # order in which a unit's factors were first multiplied together in the process (a C08
+    # finding), so the two modes must see identical histories to be comparable
+    normal = par.run("props.c07", "sub_worker", tasks, maxtasksperchild=1)
     normal_u = par.run("props.c07", "sub_worker", utasks, maxtasksperchild=1)
     optim = run_optimized(tasks + utasks, nproc=16)
     for t, n, o in zip(tasks + utasks, normal + normal_u, optim):
